@@ -172,50 +172,66 @@ def _to_complex(x):
     return complex(x)
 
 
-def numeric(array, env=None):
+def numeric_many(array, envs):
     """
-    Flat complex numpy vector of an array of numbers / sympy expressions at
-    the point `env`.  Raises Unresolved when a symbol has no value.
+    Flat complex numpy vectors of an array of numbers / sympy expressions at
+    each point of `envs` (one sympy.lambdify for all points).  Raises
+    Unresolved when a symbol has no value.
     """
-    env = env or {}
+    envs = list(envs)
     if isinstance(array, numpy.ndarray) and array.dtype != object:
-        return array.astype(complex).flatten()
+        vec = array.astype(complex).flatten()
+        return [vec.copy() for _ in envs]
     if isinstance(array, (numbers.Number, sympy.Basic)):
         array = [array]
     flat = list(numpy.asarray(array, dtype=object).flatten())
-    out = numpy.zeros(len(flat), dtype=complex)
+    base = numpy.zeros(len(flat), dtype=complex)
     symbolic = []
     for i, x in enumerate(flat):
         if isinstance(x, sympy.Basic):
             if x.free_symbols:
                 symbolic.append(i)
             else:
-                out[i] = _to_complex(x)
+                base[i] = _to_complex(x)
         else:
-            out[i] = complex(x)
+            base[i] = complex(x)
     if not symbolic:
-        return out
+        return [base.copy() for _ in envs]
     syms = set()
     for i in symbolic:
         syms |= flat[i].free_symbols
-    missing = [s for s in syms if s not in env]
-    if missing:
-        raise Unresolved("no value for {}".format(sort_symbols(missing)))
     syms = sort_symbols(syms)
-    values = [env[s] for s in syms]
+    for env in envs:
+        missing = [s for s in syms if s not in env]
+        if missing:
+            raise Unresolved("no value for {}".format(missing))
+    exprs = [flat[i] for i in symbolic]
     try:
-        fn = sympy.lambdify(syms, [flat[i] for i in symbolic],
-                            modules="numpy", dummify=True, cse=False)
-        res = fn(*values)
-        for i, v in zip(symbolic, res):
-            out[i] = complex(v)
-    except Unresolved:
-        raise
+        fn = sympy.lambdify(syms, exprs, modules="numpy", dummify=True,
+                            cse=False)
     except Exception:
-        rep = {s: sympy.Float(v) for s, v in zip(syms, values)}
-        for i in symbolic:
-            out[i] = _to_complex(flat[i].xreplace(rep).doit())
+        fn = None
+    out = []
+    for env in envs:
+        vec = base.copy()
+        values = [env[s] for s in syms]
+        res = None
+        if fn is not None:
+            try:
+                res = [complex(v) for v in fn(*values)]
+            except Exception:
+                res = None
+        if res is None:
+            rep = {s: sympy.Float(v) for s, v in zip(syms, values)}
+            res = [_to_complex(e.xreplace(rep).doit()) for e in exprs]
+        for i, v in zip(symbolic, res):
+            vec[i] = v
+        out.append(vec)
     return out
+
+
+def numeric(array, env=None):
+    return numeric_many(array, [env or {}])[0]
 
 
 def close(a, b, rtol=RTOL, atol=ATOL):
@@ -296,11 +312,8 @@ def diff_array(array, var, symbols=None):
 def diff_numeric(array, var, envs, symbols=None):
     """ The derivative array at each environment (keyed by the ORIGINAL symbols). """
     ders, twins = diff_array(array, var, symbols)
-    out = []
-    for env in envs:
-        out.append(numeric(ders, {twins[s]: v for s, v in env.items()
-                                  if s in twins}))
-    return out
+    return numeric_many(ders, [{twins[s]: v for s, v in env.items()
+                                if s in twins} for env in envs])
 
 
 def finite_difference(fn, env, var, h=FD_H):
